@@ -16,7 +16,7 @@
                  current format, whose metadata encoder itself bounds the size. *)
 From Coq Require Import List NArith Lia.
 Import ListNotations.
-Require Import YF.Codec YF.XXH YF.C05_Model YF.C05_Lemmas YF.C05_Proofs YF.C05_Check.
+Require Import YF.Generated.ConstsC05 YF.Codec YF.XXH YF.C05_Model YF.C05_Lemmas YF.C05_Proofs YF.C05_Check.
 Local Open Scope N_scope.
 
 (* (a) no false negative: every signature added before sealing is reported present by the sealed file —
@@ -85,6 +85,14 @@ Qed.
 Theorem C05_checker_hash_is_xxh64 :
   forall sigs s, memo_hash (mk_tbl sigs) s = xxh64 s.
 Proof. exact memo_hash_is_xxh64. Qed.
+
+(* the constants written into the model are those of the source tree (ConstsC05.v is regenerated from
+   bucketteer/bucketteer.go, deprecated/bucketteer/bucketteer.go and indexmeta/indexmeta.go on every check) *)
+Example C05_constants_match_source :
+  version_num V2 = go_version_current /\ version_num V1 = go_version_legacy /\
+  magic = go_magic_current /\ magic = go_magic_legacy /\
+  N.of_nat max_kvs = go_meta_max_kvs /\ N.of_nat max_key = go_meta_max_key /\ N.of_nat max_value = go_meta_max_value.
+Proof. repeat split; reflexivity. Qed.
 
 (* ---------- non-vacuity: concrete multisets meet every hypothesis, in both formats ---------- *)
 Definition ex_sigs : list (list N) :=
